@@ -152,7 +152,7 @@ def seeded_for(prop):
 def cmd_run(a):
     t0 = time.time()
     ms = [m for m in load_index()["mutants"] if m["property"] == a.prop] + seeded_for(a.prop)
-    with ThreadPoolExecutor(max_workers=int(os.environ.get("VERIF_JOBS", "6"))) as ex:
+    with ThreadPoolExecutor(max_workers=int(os.environ.get("VERIF_JOBS", "4"))) as ex:
         results = list(ex.map(one, ms))
     killed = sum(1 for r in results if r["result"] == "killed")
     for r in results:
